@@ -1,4 +1,4 @@
-(* C01 oracle and non-triviality on wiring cases. Correspondence: Corr/Wiring.v [wcheck];
+(* C07 oracle and non-triviality on wiring cases. Correspondence: Corr/Wiring.v [wcheck];
    oracles: Corr/WiringOracles.v (static scenario data + the implementation's observation only). *)
 From Coq Require Import List Arith Bool.
 From IocVerif Require Import Model.App Corr.Wiring Corr.WiringOracles.
@@ -6,10 +6,10 @@ Import ListNotations.
 
 Definition check_case : wcase -> bool := wcheck.
 
-(* after a successful start every version held anywhere equals the by-name lookup of its component *)
-Definition oracle_case (c : wcase) : bool := oracle_one_version c.
+(* named points receive exactly the named component; absent/incompatible: error when required, untouched when optional; never a panic *)
+Definition oracle_case (c : wcase) : bool := oracle_clean_outcome c && oracle_points c && oracle_points_sound c.
 
-Definition nontrivial (c : wcase) : bool := ok_start c && shared c 2.
+Definition nontrivial (c : wcase) : bool := 1 <=? count_points c (fun h kp => match pt_sel (snd kp) with SByName _ => true | _ => false end).
 
 Definition mismatches (cs : list wcase) : list nat := wmismatches cs.
 Definition violations (cs : list wcase) : list nat :=
